@@ -305,6 +305,9 @@ StaticForms(H, F) ==
                 atcall == Obs(F, b, "ok", Call(F, s1, v, mf), <<>>)
             IN CASE kind \in {"callv", "callp", "mexpp", "mexppf", "mvalv", "mvalp"} ->   \* v.m()  p.m()  (*T1).m(&v)  f := v.m; f()
                       IF F.found[m] THEN <<atcall>> ELSE <<>>
+                 [] kind \in {"mvalv2", "mvalp2"} ->                            \* f := v.m; f(); f() : every call of a method value
+                      \* with a value receiver works on its own copy of the bound receiver (the second call sees what the first saw)
+                      IF F.found[m] THEN <<Obs(F, b, "ok", Calls(F, s1, v, <<mf, mf>>), <<>>)>> ELSE <<>>
                  [] kind = "calltmp" ->                                         \* mk().m()
                       IF m \in F.msv THEN LET a == Alloc(F, s1) IN <<Obs(F, b, "ok", Call(F, a.st, a.inst, mf), <<>>)>> ELSE <<>>
                  [] kind \in {"mvalvc", "mvalpc"} ->                            \* f := v.m; mut(&v); f()
@@ -314,7 +317,7 @@ StaticForms(H, F) ==
                         ELSE <<Late(atcall, atcall)>>
                  [] kind \in {"mexpv", "mexpvf"} ->                             \* T1.m(v): the argument is a copy
                       IF m \in F.msv THEN LET c == Copy(F, s1, v) IN <<Obs(F, b, "ok", Call(F, c.st, c.inst, mf), <<>>)>> ELSE <<>>
-        KOrd == <<"callv", "callp", "calltmp", "mvalv", "mvalp", "mvalvc", "mvalpc", "mexpv", "mexpp", "mexpvf", "mexppf">>
+        KOrd == <<"callv", "callp", "calltmp", "mvalv", "mvalp", "mvalv2", "mvalp2", "mvalvc", "mvalpc", "mexpv", "mexpp", "mexpvf", "mexppf">>
     IN Flat([i \in 1..(2 * Len(KOrd)) |-> one(KOrd[((i - 1) \div 2) + 1], MOrd[((i - 1) % 2) + 1])])
 
 -------------------------------------------------------------------------------
